@@ -12,7 +12,7 @@
    envelope sits at a position L1 <= 31, L2 <= 31. Nothing is assumed of loaded root keys, cached L0 indices or
    key material. *)
 From V Require Import Prelude.Base Prelude.PyInt gen.K_cache gen.Kernels.
-From V Require Import Model.Types Model.Crypto Model.Sym Model.Blob Model.Client.
+From V Require Import Model.Types Model.Crypto Model.Sym Model.Blob Model.Client Model.Gkdi.
 From V Require Import Proofs.C05 Proofs.C05Asn1 Proofs.C05Blob Proofs.C05Keys.
 
 Theorem C05_l0_guard : forall l0, k_cache_l0_guard l0 = true <-> ~ (0 <= l0 <= 2147483647).
@@ -102,3 +102,9 @@ Example C05_cache_ok_needed_example :
   fst (unprotect_offline sym (ex_cache_at 200 31) ex_blob) = Raise OutOfFuel /\ ~ cache_ok (ex_cache_at 200 31) /\
   cache_ok (ex_cache_at 31 31) /\ fst (unprotect_offline sym (ex_cache_at 31 31) ex_blob) = Raise InvalidUnwrap.
 Proof. exact ex_cache_ok_needed. Qed.
+
+(* work proportional to the input: the key length announced by a DH key blob inside the key identifier is bounded by
+   the size of that blob (FFCDHKey.unpack refuses shorter data), so shared_secret.to_bytes(key_length) is linear *)
+Theorem C05_dh_key_length_bounded : forall data k, FFCDHKey_unpack data = Ok k -> 8 + 3 * ffk_key_length k <= len data.
+Proof. exact FFCDHKey_length_bounded. Qed.
+Print Assumptions C05_dh_key_length_bounded.
